@@ -250,6 +250,20 @@ func C03(c *core.Ctx) {
 			}
 		}
 	}
+	// R5: the included-tax removal recalculates after recording its residue, so that due and
+	// the payment figures follow the new payable (decided under C17-R3, re-reported here)
+	c.Rule("C03-R5", "included-tax removal ends with a recalculation (shared with C17-R3)", 2)
+	sub := core.NewCtx("C17", c.Tier, c.Seed, p, c.VerifDir)
+	sub.Quiet = true
+	C17(sub)
+	for _, o := range sub.Obligations() {
+		if o.Rule == "C17-R3" {
+			c.ObAt("C03-R5", o.Key, o.Pos, o.OK, o.Msg)
+		}
+	}
+	// R6: rate amounts are taken of the stored base
+	c.Rule("C03-R6", "each rate row's amount and surcharge are Percent.Of(the row's stored Base)", 2)
+	rateAmountFromBase(c, "C03-R6")
 	// R3
 	roundCoverage(c, "C03-R3")
 	c03LineRounding(c)
